@@ -248,8 +248,17 @@ func (w *World) RestoreEtcd(kv KV) {
 	}
 }
 
-// DiffKV lists differences between two dumps (sorted, at most 12).
+// DiffKV lists differences between two dumps (sorted, at most 12 for messages).
 func DiffKV(a, b KV) []string {
+	out := DiffKVAll(a, b)
+	if len(out) > 12 {
+		out = append(out[:12], fmt.Sprintf("... %d more", len(out)-12))
+	}
+	return out
+}
+
+// DiffKVAll lists every difference between two dumps (sorted).
+func DiffKVAll(a, b KV) []string {
 	var out []string
 	for k, v := range a {
 		if bv, ok := b[k]; !ok {
@@ -264,9 +273,6 @@ func DiffKV(a, b KV) []string {
 		}
 	}
 	sort.Strings(out)
-	if len(out) > 12 {
-		out = append(out[:12], fmt.Sprintf("... %d more", len(out)-12))
-	}
 	return out
 }
 
